@@ -2,15 +2,15 @@
    run_seq w h prefix seq : the prefix is fed through AnsiTok.ansi_step (state set-up; the generators keep the clamped
      control functions out of it), then the sequence; its LAST character is dispatched through the cost model
      (Cost.csi_final_c / csi_sp_c) when the parser is in a CSI state, every other character costs one tick.
-     -> cls iters ticks alloc rows_before rows cells_before cells bh lh cx cy maxrow hash tw th     (cls 0 action 1 error value)
+     -> cls iters ticks alloc rows_before rows cells_before cells bh lh cx cy maxrow hash tw th  threaded_alloc scr   (cls 0 action 1 error value)
         | -1 site | -2
    hash = sum over allocated cells (y, x) of ((y * 131 + x + 1) * (code + 1)) mod 2^31-1  (harness kind `seq`).
    run_hex s   : parse_hex_macro_sequence -> ok iters macro_length max_repeat
    run_glyphs h n : glyphs_from_u8_data on n zero bytes -> iterations
    run_raster rest : bytes requested by sixel raster attributes *)
 From Coq Require Import ZArith NArith List Bool.
-From IE Require Import Model.TermCore Model.AnsiTok Model.Cost.
-From IE Require Model.Font.
+From IE Require Import Model.TermCore Model.AnsiTok Model.Cost Model.Alloc.
+From IE Require Model.Font Model.Sixel Model.SixelCost.
 Import ListNotations.
 Local Open Scope Z_scope.
 
@@ -38,23 +38,41 @@ Definition last_step (m : amach) (ch : Z) : outcome * cost :=
   match st (ps m) with
   | SCsi is_start => csi_final_c (tm m) (ps m) is_start ch
   | SEndCsi 32 => csi_sp_c (tm m) (ps m) ch
+  | SEndCsi 36 => csi_dollar_c (tm m) (ps m) ch                      (* DECFRA DECERA DECSERA: ticks = clipped rectangle *)
+  | SEndCsi 42 => if ch =? 121 then rqcra_c (tm m) (ps m)            (* DECRQCRA *)
+                  else let o := ansi_step m ch in (o, mkCost 1 1 (out_grow (tm m) o))
   | _ => let o := ansi_step m ch in (o, mkCost 1 1 (out_grow (tm m) o))
   end.
+(* the THREADED allocation counter of Model/Alloc.v for the same character (rows + cells allocated; every other state: growth of the state) *)
+Definition last_step_a (m : amach) (ch : Z) : Z :=
+  match st (ps m) with
+  | SCsi is_start => csi_final_a (tm m) (ps m) is_start ch
+  | SEndCsi 32 => csi_sp_a (tm m) (ps m) ch
+  | SEndCsi 36 => csi_dollar_a (tm m) (ps m) ch
+  | SDefault =>
+    if ch =? 10 then caret_lf_a (tm m)
+    else if (ch =? 27) || (ch =? 12) || (ch =? 13) || (ch =? 7) || (ch =? 127) || (((ch =? 8) || (ch =? 0) || (ch =? 255)) && bs_ctrl (ps m))
+         then out_grow (tm m) (ansi_step m ch)
+    else print_char_a (tm m) (print_cell (tm m) ch)
+  | _ => out_grow (tm m) (ansi_step m ch)
+  end.
 
-(* the sequence: every character but the last costs one tick (parameter digits, intermediates, earlier sequences count fully) *)
-Fixpoint feed_cost (m : amach) (cs : list Z) (acc : cost) (t0 : term) : list Z :=
+(* the sequence: every character but the last costs one tick (parameter digits, intermediates, earlier sequences count fully);
+   [ta] accumulates the threaded allocation counter; the vector ends with  ta  scr(t0) *)
+Fixpoint feed_cost (m : amach) (cs : list Z) (acc : cost) (ta : Z) (t0 : term) : list Z :=
   match cs with
-  | [] => obs 0 acc t0 (tm m)
+  | [] => obs 0 acc t0 (tm m) ++ [ta; scr t0]
   | [c] => let '(o, k) := last_step m c in
+           let ta' := ta + last_step_a m c in
            match o with
-           | OOk m1 => obs 0 (cadd acc k) t0 (tm m1)
-           | OErr m1 => obs 1 (cadd acc k) t0 (tm m1)
+           | OOk m1 => obs 0 (cadd acc k) t0 (tm m1) ++ [ta'; scr t0]
+           | OErr m1 => obs 1 (cadd acc k) t0 (tm m1) ++ [ta'; scr t0]
            | OPanic s => [-1; s]
            | ODiverge => [-2]
            end
   | c :: r => let '(o, k) := last_step m c in
               match o with
-              | OOk m1 | OErr m1 => feed_cost m1 r (cadd acc k) t0
+              | OOk m1 | OErr m1 => feed_cost m1 r (cadd acc k) (ta + last_step_a m c) t0
               | OPanic s => [-1; s]
               | ODiverge => [-2]
               end
@@ -62,7 +80,7 @@ Fixpoint feed_cost (m : amach) (cs : list Z) (acc : cost) (t0 : term) : list Z :
 
 Definition run_seq (w h : Z) (prefix seq : list Z) : list Z :=
   match feed (ansi_init 0 false w h) prefix with
-  | inl (Some m) => feed_cost m seq cost0 (tm m)
+  | inl (Some m) => feed_cost m seq cost0 0 (tm m)
   | inl None => [-3]
   | inr l => l
   end.
@@ -84,8 +102,18 @@ Definition run_seq_old (w h : Z) (prefix seq : list Z) : list Z :=
 Definition run_hex (s : list Z) : list Z :=
   let r := hex_macro_t s HFirst false [] 0 [] 0 in
   match fst r with
-  | Some m => [1; snd r; zlen m; hex_max_rep s HFirst 0]
-  | None => [0; snd r; 0; hex_max_rep s HFirst 0]
+  | Some m => [1; snd r; zlen m; hex_max_rep s HFirst 0; hex_reps s HFirst false 0; zlen s]
+  | None => [0; snd r; 0; hex_max_rep s HFirst 0; hex_reps s HFirst false 0; zlen s]
+  end.
+(* macro replay: the definitions are fed to a fresh terminal (character-level model), then the macro table it holds is measured:
+   -> characters replayed by invoking [id] with nesting budget [fuel] (-2: deeper) ; longest body ; most invocations in a body ; B * geom c fuel *)
+Definition run_macro_seq (fuel : Z) (defs : list Z) (id : Z) : list Z :=
+  match feed (ansi_init 0 false 80 25) defs with
+  | inl (Some m) => let ms := macros (ps m) in
+                    [match macro_chars (Z.to_nat fuel) ms id with Some n => n | None => -2 end;
+                     macros_maxlen ms; macros_maxinv ms; macros_maxlen ms * geom (macros_maxinv ms) (Z.to_nat fuel)]
+  | inl None => [-3]
+  | inr l => l
   end.
 
 Definition run_glyphs (h n : Z) : list Z := [glyph_iters (Z.to_N h) (repeat 0%N (Z.to_nat n))].
@@ -127,4 +155,23 @@ Definition run_state (w h : Z) (a b : list Z) : list Z :=
     | inr l => l
     end
   | inr l => l
+  end.
+
+(* ---- extension (d): the sixel decoder with counters.  run_sixel_cost payload (the decoder appends '#', as parse_from does) ->
+     cls (0 Ok, 1 Err, 2 Panic)  iterations  executed_repeat_counts  declared_width declared_height  rows  longest_row  bytes_of_the_padded_image  cap
+   cap = the bound of sixel_image_bound; harness kind `c03sixel`: ok width height bytes *)
+Definition hsl0 (_ _ _ : Z) : Sixel.rgb := (0, 0, 0)%N.
+Definition pal16 : list Sixel.rgb := repeat (0, 0, 0)%N 16.
+Definition run_sixel_cost (payload : list Z) : list Z :=
+  let cs := payload ++ [35] in
+  let s0 := Sixel.init_state pal16 1 1 in
+  let r := SixelCost.parse_chars_t hsl0 s0 cs 0 in
+  let T := SixelCost.zlenN cs + SixelCost.rep_sum hsl0 s0 cs in
+  let d := SixelCost.decl_max hsl0 s0 cs in
+  let cap := Z.max (6 * T + 6) (snd d) * (4 * Z.max T (fst d)) in
+  match fst r with
+  | Sixel.Ok s' => [0; snd r; SixelCost.rep_sum hsl0 s0 cs; fst d; snd d; Sixel.height (Sixel.rows s'); SixelCost.mxl (Sixel.rows s');
+                    Sixel.height (Sixel.rows s') * SixelCost.mxl (Sixel.rows s'); cap]
+  | Sixel.Err c => [1; snd r; c]
+  | Sixel.Panic c => [2; snd r; c]
   end.
